@@ -277,7 +277,7 @@ pub fn main(args: &[String]) -> i32 {
             m.insert("expect".into(), json!(expect));
             m.insert("ident".into(), json!(all_ident));
             m.insert("runs".into(), Value::Array(runs));
-            for k in ["table", "tag", "dmg"] {
+            for k in ["table", "tag", "dmg", "semtab"] {
                 if let Some(t) = rec.get(k) {
                     m.insert(k.into(), t.clone());
                 }
